@@ -169,8 +169,13 @@ def r4_solver_hooks(repo: Repo, rep):
     # Lightning restores the loop state (global_step) of a checkpoint after on_fit_start / setup and before on_train_start:
     # the counter must be re-derived in a hook that runs after the restore
     AFTER_RESTORE = ("on_train_start", "on_train_epoch_start", "on_train_batch_start", "training_step")
-    derive = [(name, m) for name, m in S.methods.items() for n in ast.walk(m.node)
-              if isinstance(n, ast.Assign) and any(dump(t) == "self.n_training_step" for t in n.targets) and "global_step" in dump(n.value)]
+    from ..util import deref, single_defs
+    derive = []
+    for name, m in S.methods.items():
+        tmp = single_defs(m.node)
+        for n in ast.walk(m.node):
+            if isinstance(n, ast.Assign) and any(dump(t) == "self.n_training_step" for t in n.targets) and "global_step" in dump(deref(n.value, tmp)):
+                derive.append((name, m))
     late = [name for name, m in derive if name in AFTER_RESTORE]
     early = [name for name, m in derive if name not in AFTER_RESTORE]
     rep.check(R, bool(late), S.module.relpath, S.fq, "the step counter is re-derived from trainer.global_step in a hook that runs after the checkpoint was restored "
@@ -183,7 +188,8 @@ def r4_solver_hooks(repo: Repo, rep):
             v = p.env.get("self.n_training_step")
             rep.check(R, v is not None and dump(v) in ("self.trainer.global_step", "self.global_step"), ots.site(), ots.fq,
                       "the step counter handed to the conditions continues from the trainer's (restored) global step", f"n_training_step := {dump(v)}", f"n_training_step := {dump(v)}")
-        writes = sorted({dump(t) for n in ast.walk(ots.node) if isinstance(n, (ast.Assign, ast.AugAssign)) for t in (n.targets if isinstance(n, ast.Assign) else [n.target])})
+        writes = sorted({dump(t) for n in ast.walk(ots.node) if isinstance(n, (ast.Assign, ast.AugAssign)) for t in (n.targets if isinstance(n, ast.Assign) else [n.target])
+                         if not isinstance(t, ast.Name)})  # local temporaries are not state
         rep.check(R, set(writes) <= {"self.n_training_step"}, ots.site(), ots.fq, "on_train_start writes only the step counter", str(writes), str(writes))
 
 
